@@ -107,6 +107,33 @@ Theorem eta_minimal_linear_range : forall fd fb a o, eta fd fb a = OK o -> 0 < s
 Proof. exact eta_minimal_linear_range_lem. Qed.
 Print Assumptions eta_minimal_linear_range.
 
+(* ---- convert_to_arbitrary=True: the raster-sampled form returned by make_extended_trapezoid_area ----
+   [eta_arb] = same search, then points_to_waveform (np.interp at the raster centres) + make_arbitrary_grad +
+   the first/last assignment of make_extended_trapezoid. *)
+
+(* the sampled event starts at grad_start and ends at grad_end (fields first / last) *)
+Theorem eta_arb_endpoints : forall fd fb a o, eta_arb fd fb a = OK o ->
+  a_first (oa_grad o) = e_gs a /\ a_last (oa_grad o) = e_ge a.
+Proof. exact eta_arb_endpoints_lem. Qed.
+Print Assumptions eta_arb_endpoints.
+
+(* there is exactly one sample per raster step of the returned duration, sample i sits at the raster centre
+   (i + 1/2) * raster and equals the corner list (0, grad_start) (up R, amp) ((up+flat) R, amp) (D R, grad_end)
+   evaluated there ([arb_sample_spec]: the three linear pieces in closed form); the duration is that of the
+   solution found, which is the least feasible one by eta_smallest_feasible (same search) *)
+Theorem eta_arb_samples : forall fd fb a o, eta_arb fd fb a = OK o ->
+  let g := oa_grad o in let c := oa_cand o in let D := oa_dur o in
+  0 < rast a /\ find_solution a D = Some c /\
+  (0 < c_up c /\ 0 <= c_flat c /\ 0 < c_down c /\ c_up c + c_flat c + c_down c = D)%Z /\
+  length (a_wave g) = Z.to_nat D /\ length (a_tt g) = Z.to_nat D /\
+  (forall i, (i < Z.to_nat D)%nat -> nth i (a_wave g) 0 == arb_sample_spec a c (Z.of_nat i)) /\
+  (forall i, (i < Z.to_nat D)%nat -> nth i (a_tt g) 0 == (inject_Z (Z.of_nat i) + (1 # 2)) * rast a) /\
+  a_shape_dur g == inject_Z D * rast a /\
+  a_area g == qsum (map (fun w => w * rast a) (a_wave g)) /\
+  Qabs (a_area g - e_area a) < eta_area_tol.
+Proof. exact eta_arb_samples_lem. Qed.
+Print Assumptions eta_arb_samples.
+
 (* REFUTED for the algorithm before repair 7df2246 ([eta_old]: binary-search result without rescan):
    on Opts(max_grad=10 mT/m, max_slew=200 T/m/s), grad_start = grad_end = -399118.9, area = -9.94 it returns
    18 raster steps although the ramp pair 8 + 8 exists (a dead space above the linear range: the doubling
@@ -131,6 +158,20 @@ Print Assumptions eta_old_minimal_refuted.
 Example C12_reproducer_repaired :
   match eta 40 200 old_args with OK o => o_dur o = 16%Z | Err _ => False end.
 Proof. vm_compute. reflexivity. Qed.
+
+(* the one-step-ramp input of the default system ((-700000, 845000, 19.165): 21 + 1 steps): the sampled form ends at
+   grad_end although its last two samples lie on different ramps (their extrapolation would give 863920) *)
+Definition onestep_args : etaArgs :=
+  {| e_sys := {| s_max_grad := 1703040; s_max_slew := 7237920000; s_raster := 1 # 100000 |};
+     e_gs := -700000; e_ge := 845000; e_area := 3833 # 200 |}.
+Example C12_arb_onestep_example :
+  match eta_arb 40 200 onestep_args with
+  | OK o => oa_dur o = 22%Z /\ c_down (oa_cand o) = 1%Z /\ a_last (oa_grad o) = 845000 /\
+            length (a_wave (oa_grad o)) = 22%nat /\
+            ~ (3 * nth 21 (a_wave (oa_grad o)) 0 - nth 20 (a_wave (oa_grad o)) 0) * (1 # 2) == 845000
+  | Err _ => False
+  end.
+Proof. vm_compute. repeat split; try reflexivity. intro H. discriminate H. Qed.
 
 (* the constants read from the source are the ones the property text names: 99 percent of both limits, area to
    1e-8, filter tolerances not above 1e-8 (a changed factor or tolerance in the source breaks this obligation) *)
